@@ -703,7 +703,8 @@ func readFieldAnnotationsForType(typeSpec *ast.TypeSpec, typeName string) []Muta
 	var mutables []MutableAnnotation
 
 	// Only process struct types
-	structType, ok := typeSpec.Type.(*ast.StructType)
+	// The struct type may be written in parentheses: type T (struct{ ... })
+	structType, ok := ast.Unparen(typeSpec.Type).(*ast.StructType)
 	if !ok {
 		return mutables
 	}
